@@ -24,11 +24,12 @@ enum Kind
 	SYMMETRIC,
 	ZERO_LEADING_MINORS,
 	MIXED_MAGNITUDES,
+	GROWTH,
 	NKINDS
 };
 static const char* kind_name(int k)
 {
-	static const char* n[] = {"dense-gaussian", "graded(kappa<=1e8)", "40%-zeros-zero-corner", "signed-permutation", "tiny-leading-entry", "triangular", "diagonal", "symmetric", "zero-leading-minors", "mixed-magnitudes"};
+	static const char* n[] = {"dense-gaussian", "graded(kappa<=1e8)", "40%-zeros-zero-corner", "signed-permutation", "tiny-leading-entry", "triangular", "diagonal", "symmetric", "zero-leading-minors", "mixed-magnitudes", "large-subdiagonal-part-and-full-last-column"};
 	return n[k % NKINDS];
 }
 static RM gen_square(Rng& rng, unsigned n, int kind, double& kappa_target)
@@ -110,6 +111,21 @@ static RM gen_square(Rng& rng, unsigned n, int kind, double& kappa_target)
 				for(unsigned j = 0; j < n; j++)
 					if(i + j >= n && rng.coin(0.5))
 						A(i, j) = rng.normal();
+			break;
+		}
+		case GROWTH: {
+			// Wilkinson's growth matrix with the sub-diagonal part c times the diagonal (c from 1 to just under 10) and a full last column: an elimination
+			// that leaves the small diagonal entries as pivots multiplies the last column by (1+c) per step (seeded change C05-r7m2: threshold pivoting)
+			double c = rng.coin(0.6) ? rng.uni(9.0, 9.95) : rng.loguni(1.0, 9.95);
+			for(unsigned i = 0; i < n; i++)
+			{
+				double d = rng.sign() * rng.uni(1.0, 1.02);
+				A(i, i)	 = d;
+				for(unsigned j = 0; j < i; j++)
+					A(i, j) = -d * c * rng.uni(0.97, 1.0);
+				if(i + 1 < n)
+					A(i, n - 1) = rng.uni(0.75, 1.0);
+			}
 			break;
 		}
 		default:
@@ -378,6 +394,15 @@ static void case_inverse(Rng& rng, uint64_t index)
 	require("inverse-has-the-shape-of-the-matrix", X.Rows() == n && X.Columns() == n, [&] { return mat_json(A, kind_name(kind)).i("rows", X.Rows()).i("columns", X.Columns()); });
 	if(X.Rows() != n || X.Columns() != n)
 		return;
+	// the rows of the result as its accessors hand them out: n entries each (seeded change C05-r7m1 left the 2n-wide work array behind the first n columns)
+	{
+		bool rows_ok = true;
+		for(unsigned i = 0; i < n; i++)
+			rows_ok = rows_ok && X[i].size() == n && X.Return_Row(i).Size() == n;
+		for(unsigned j = 0; j < n; j++)
+			rows_ok = rows_ok && X.Return_Column(j).Size() == n;
+		require("inverse-has-the-shape-of-the-matrix", rows_ok, [&] { return mat_json(A, kind_name(kind)).i("entries_in_row_0", (long long) X[0].size()).i("Return_Row(0).Size()", X.Return_Row(0).Size()); }, "inverse-rows-hold-n-entries");
+	}
 	LM XL	= widen(from_lib(X));
 	ld relerr = fro_diff(XL, Xref) / fro(Xref);
 	double tol = K_INV * n * (double) kappa * EPS;
@@ -411,12 +436,25 @@ static void case_reject(Rng& rng, uint64_t index)
 		unsigned n = 1 + (unsigned) ((index / 3) % 7);
 		A		   = gen_integer_singular(rng, n, (int) (index / 21));
 		what	   = "integer-singular";
+		// one row an exact copy (or an exact power-of-two multiple) of another, entries not integers: singular by construction; whatever the rounded
+		// cofactor determinant says, the elimination meets an exactly vanishing row (seeded change C05-r7m3 multiplied by a hoisted reciprocal of the
+		// pivot instead of dividing, after which identical rows no longer cancel exactly)
+		if(n >= 3 && index % 2 == 1)
+		{
+			for(auto& x : A.a)
+				x = rng.normal() * (rng.coin(0.3) ? rng.loguni(1e-3, 1e3) : 1.0);
+			unsigned r1 = rng.below(n), r2 = (r1 + 1 + rng.below(n - 1)) % n;
+			double f	= rng.coin(0.5) ? 1.0 : std::ldexp(rng.sign(), rng.irange(-3, 3));
+			for(unsigned j = 0; j < n; j++)
+				A(r2, j) = f * A(r1, j);
+			what = "real-valued-with-a-repeated-row";
+		}
 	}
 	set_params(mat_json(A, what.c_str()));
 	hash_matrix(A);
 	mark_nontrivial();
 	int which = (int) (index % 2);	 // 0 Inverse, 1 Determinant (non-square only) / Inverse
-	if(!nonsquare)
+	if(!nonsquare && what == "integer-singular")
 	{
 		// exact integer arithmetic: the determinant is exactly 0 and Invertible() is false
 		Matrix M   = to_lib(A);
@@ -425,6 +463,8 @@ static void case_reject(Rng& rng, uint64_t index)
 		require("integer-singular-not-invertible", !M.Invertible(), [&] { return mat_json(A, what.c_str()); });
 		which = 0;
 	}
+	if(!nonsquare)
+		which = 0;
 	Outcome o = run_isolated([&](const std::function<void(const std::string&)>& send) {
 		Matrix M = to_lib(A);
 		if(which == 0)
